@@ -114,6 +114,29 @@ func (e *evidence) Class(sub, c string) {
 }
 
 // Refused records an error outcome that the property allows.
+// refusalReason normalises an error message (digits and quoted parts removed, truncated) so that
+// refusals can be counted per reason in the evidence.
+func refusalReason(err error) string {
+	if err == nil {
+		return "none"
+	}
+	m := err.Error()
+	out := make([]rune, 0, len(m))
+	for _, r := range m {
+		if r >= '0' && r <= '9' {
+			if len(out) > 0 && out[len(out)-1] == '#' {
+				continue
+			}
+			r = '#'
+		}
+		out = append(out, r)
+	}
+	if len(out) > 90 {
+		out = out[:90]
+	}
+	return string(out)
+}
+
 func (e *evidence) Refused(sub string) {
 	e.mu.Lock()
 	e.refusals[sub]++
